@@ -1,5 +1,5 @@
 SPECIFICATION Spec
-CONSTANTS MaxD = 2  MaxB = 2  Caps = {1, 2, 9}  MaxAborts = 1
+CONSTANTS MaxD = 2  MaxB = 2  MaxLeaves = 99  Caps = {1, 2, 9}  MaxAborts = 1
 INVARIANT TypeOK
 INVARIANT NoDuplicateLeaf
 INVARIANT AllLeavesVisitedAtStop
